@@ -217,9 +217,22 @@ func chainCase(prop string, w *vlog.W, a *wargs, id int) {
 			os.WriteFile(out, hb, 0644)
 		}
 		// ---- rollback, audit, re-execute the same blocks, then a different continuation
+		var maxEver uint64
 		for round := 0; round < 3; round++ {
 			head := world.R.Height()
+			if head > maxEver {
+				maxEver = head
+			}
 			t := head - 1 - uint64(rng.Intn(7))
+			// the journal window hangs on the highest height ever committed, not on the current head: after a
+			// rollback and a shorter continuation a target below maxEver-9 is (rightly) refused
+			if maxEver > 9 && t < maxEver-9 {
+				t = maxEver - 9
+				shape["target-clamped-to-window"] = true
+			}
+			if t >= head {
+				break
+			}
 			var removed []harness.Removed
 			for h := t + 1; h <= head; h++ {
 				rb := blocks[h]
